@@ -1,7 +1,7 @@
 (* Run/Dispatch.v — one entry point for the extracted runner: kind + arguments -> rendered result.
    All kind-specific glue is here so the OCaml driver stays generic.  The only effectful thing in
    the runner is [oracle], a question/answer call-back answered by the Go standard library. *)
-From FDO Require Export Run.Sexp Rv.RvImpl Cose.Sign1 Kex.Crypter.
+From FDO Require Export Run.Sexp Rv.RvImpl Cose.Sign1 Kex.Crypter Kex.Kdf.
 Local Open Scope N_scope.
 
 Definition unhexnum (b : bytes) : option N :=
@@ -197,6 +197,45 @@ Section Dispatch.
       end
     else None.
 
+  (* ---- key exchange ---- *)
+  Definition O_modexp (b e m : N) : N :=
+    match unhexnum (oracle (s "modexp "%bs ++ hexnum b ++ sp ++ hexnum e ++ sp ++ hexnum m)) with Some x => x | None => 0 end.
+  Definition hbytes_of (h : N) : nat := if h =? 384 then 48%nat else 32%nat.
+  Definition render_keys (k : bytes * bytes) : bytes := s "b:"%bs ++ hex (fst k) ++ s " b:"%bs ++ hex (snd k).
+  Definition opt_bytes (a : arg) (dflt : bytes) : bytes := match a with AB b => b | _ => dflt end.
+
+  Definition run_kex2 (kind : bytes) (args : list arg) : option bytes :=
+    if bytes_eqb kind (s "kex.kdf"%bs) then
+      match args with
+      | [AN h; AB kin; AB ctx; AN L] =>
+        Some (render_outcome (fun b => s "b:"%bs ++ hex b) (kdf (O_hmac h) (hbytes_of h) kin ctx L))
+      | _ => Some bad_args
+      end
+    else if bytes_eqb kind (s "kex.dh"%bs) then
+      match args with
+      | [AN g; AN p; AN plen; AB ta; AB tb; AN ss; AN vs; AN h; xa_over; xb_over; again] =>
+        let a := of_be ta in let b := of_be tb in
+        let xA := opt_bytes xa_over (dh_owner_param O_modexp g p a) in
+        let dev := dh_device_param O_modexp (O_hmac h) (hbytes_of h) g p (N.to_nat plen) xA b (N.to_nat ss) (N.to_nat vs) in
+        let xB := opt_bytes xb_over (match dev with Ok (x, _) => x | _ => [] end) in
+        let own := dh_owner_set O_modexp (O_hmac h) (hbytes_of h) p (N.to_nat plen) (Some a) xB (N.to_nat ss) (N.to_nat vs) in
+        let own2 := if sym_is again "again"%bs
+                    then s " again "%bs ++ render_outcome render_keys
+                           (dh_owner_set O_modexp (O_hmac h) (hbytes_of h) p (N.to_nat plen) None xB (N.to_nat ss) (N.to_nat vs))
+                    else [] in
+        Some (s "xA b:"%bs ++ hex xA ++ s " dev "%bs
+              ++ render_outcome (fun r => s "b:"%bs ++ hex (fst r) ++ sp ++ render_keys (snd r)) dev
+              ++ s " own "%bs ++ render_outcome render_keys own ++ own2)
+      | _ => Some bad_args
+      end
+    else if bytes_eqb kind (s "kex.ecdhparam"%bs) then
+      match args with
+      | [AB b] => Some (render_outcome (fun r => s "b:"%bs ++ hex (fst r) ++ s " b:"%bs ++ hex (snd r) ++ s " b:"%bs
+                                                 ++ hex (ecdh_param_encode (fst r) (snd r))) (ecdh_param_decode b))
+      | _ => Some bad_args
+      end
+    else None.
+
   Definition dispatch (kind : bytes) (args : list arg) : bytes :=
     match run_cbor kind args with
     | Some r => r
@@ -209,7 +248,11 @@ Section Dispatch.
         | None =>
           match run_kex kind args with
           | Some r => r
-          | None => s "unknown-kind"%bs
+          | None =>
+            match run_kex2 kind args with
+            | Some r => r
+            | None => s "unknown-kind"%bs
+            end
           end
         end
       end
